@@ -64,6 +64,18 @@ static OUT_VEC_T source_at_nd(ND_SIZE_T x)
 #define COPY_PRE(sizes, t) (VERIF_ALL(DIMS_IN, EXT_OK_K, sizes) && verif_res_cells == PRODSZ(sizes))
 #endif
 
+#if COPY_LAYER == 3
+/* Hilbert: one cell per curve order k; the target cell is the curve position of t computed by the harness with the
+ * real index function (which C14/C01 verify: in range, injective); the destination has 4^k cells. */
+#define IN_SCALAR_T size_t
+#define HSIDE ((size_t)1 << HILBERT_K)
+#define H_SIZES_OK(s) ((s).m_data[0] >= 1 && (s).m_data[1] >= 1 && (s).m_data[0] <= HSIDE && (s).m_data[1] <= HSIDE && \
+                       (HILBERT_K == 0 || (s).m_data[0] > HSIDE / 2 || (s).m_data[1] > HSIDE / 2))
+#define COPY_IS_TARGET(G, t) ((G) == verif_expected_idx)
+#define COPY_IS_TARGET2(G, t) COPY_IS_TARGET(G, t)
+#define COPY_PRE(sizes, t) (H_SIZES_OK(sizes) && verif_res_cells == HSIDE * HSIDE && verif_expected_idx < HSIDE * HSIDE)
+#endif
+
 #define COPY_CONTRACT(res, sizes, t) \
   __CPROVER_requires(COPY_PRE(sizes, t) && VERIF_ALL(DIMS_IN, T_IN_BOX_K, t, sizes)) \
   __CPROVER_requires(__CPROVER_is_fresh(res, verif_res_cells * sizeof(OUT_VEC_T))) \
@@ -76,3 +88,4 @@ static OUT_VEC_T source_at_nd(ND_SIZE_T x)
 #define T_IS_GHOST_K(k, t) ((t).m_data[k] == verif_t.m_data[k])
 #define CONTRACT_morton_copy_elem(res, sizes, t) COPY_CONTRACT(res, sizes, t)
 #define CONTRACT_strided_copy_elem(res, sizes, t) COPY_CONTRACT(res, sizes, t)
+#define CONTRACT_hilbert_copy_elem(res, sizes, t) COPY_CONTRACT(res, sizes, t)
